@@ -551,7 +551,7 @@ Qed.
 
 Definition foot_inv (sofar : bytes) (fo : option (N * bytes)) : Prop :=
   match fo with
-  | Some (off, fd) => exists p0, p0 <= blen sofar /\ fd = nlast 1536 (bskip p0 sofar) /\ off = blen sofar - flen fd
+  | Some (off, fd) => exists p0, p0 < 64 /\ p0 <= blen sofar /\ fd = nlast 1536 (bskip p0 sofar) /\ off = blen sofar - flen fd
   | None => True
   end.
 
@@ -615,7 +615,7 @@ Proof.
       split; [reflexivity|]. split; [exact Hhdl|]. split; [exact Hhdp|]. split; [exact Hok|].
       split; [apply fo_init_matches|]. split; [|exact Hx].
       unfold foot_inv, fo_init. destruct (wants_footer hd); [|exact I].
-      exists (blen sofar). split; [rewrite blen_app; lia|]. split.
+      exists (blen sofar). split; [exact Hs|]. split; [rewrite blen_app; lia|]. split.
       * rewrite bskip_app_ge by lia. replace (blen sofar - blen sofar) with 0 by lia. rewrite bskip_0. reflexivity.
       * rewrite blen_app, !flen_blen. reflexivity.
     + right.
@@ -639,7 +639,7 @@ Proof.
   split; [exact Hl|]. split; [exact Hp|]. split; [exact Hok|].
   split; [unfold fo_matches in *; rewrite Hfo; apply step_fo_some|]. split; [|exact Hx].
   unfold foot_inv in *. destruct fo as [[off fd]|]; [|exact I]. cbn [step_fo].
-  destruct Hfi as [p0 [Hp0 [Hfd Hoff]]]. exists p0. split; [rewrite blen_app; lia|]. split.
+  destruct Hfi as [p0 [Hp64 [Hp0 [Hfd Hoff]]]]. exists p0. split; [exact Hp64|]. split; [rewrite blen_app; lia|]. split.
   - rewrite Hfd. rewrite nlast_app by lia. rewrite bskip_app_le by lia. reflexivity.
   - rewrite blen_app, flen_blen. reflexivity.
 Qed.
@@ -744,7 +744,7 @@ Proof.
   (* the footer check *)
   intros Hgd. unfold fo_matches, wants_footer in Hfo. rewrite F5, Hgd, N.eqb_refl in Hfo.
   destruct fo as [[off fd]|]; [|discriminate Hfo].
-  destruct Hfi as [p0 [Hp0 [Hfd Hoff]]].
+  destruct Hfi as [p0 [Hp64 [Hp0 [Hfd Hoff]]]].
   assert (Hflen : blen fd = 1536).
   { unfold Insp_Engine.complete, finB in Hc. cbn [i_regs forallb snd] in Hc.
     unfold rcomplete at 2 in Hc. unfold base_complete in Hc. cbn [set_fin freg r_end r_min r_len r_data r_fin] in Hc.
@@ -762,4 +762,99 @@ Proof.
       [reflexivity|reflexivity|exact Hl|exact Hflen|].
     apply (Hk K_footer). right. left. reflexivity. }
   rewrite <- Hfd'. unfold footer_ok in *. rewrite <- F1, <- F2, <- F3, <- F4. exact Hfok.
+Qed.
+
+(* ---------- the converse: a well-formed sparse VMDK is accepted, under every chunking ---------- *)
+Lemma dparse_ascii xA D : is_ascii_text D = true ->
+  dparse xA D = mkVx (Some (text_of D)) (vmdk_type_of (text_of D)).
+Proof.
+  intros H. unfold dparse. change VMDK_NUL with [0].
+  assert (Hdd : match find [0] D with Some i => ntake i D | None => D end = up_to_nul D).
+  { unfold up_to_nul. destruct (find [0] D); [apply ntake_btake|reflexivity]. }
+  rewrite Hdd. unfold is_ascii_text in H. change (fun c => c <? 128) with is_ascii in H. rewrite H. reflexivity.
+Qed.
+
+Theorem clean_vmdk_accepted cs :
+  let b := concat cs in
+  64 <= blen b -> hdr_pre b -> vmdk_desc_sec b * 512 = 512 ->
+  512 + dsize b <= blen b ->
+  is_ascii_text (bslice 512 (dsize b) b) = true ->
+  descriptor_ok (mkVx (Some (text_of (bslice 512 (dsize b) b))) (vmdk_type_of (text_of (bslice 512 (dsize b) b)))) ->
+  (vmdk_gd b = gd_at_end -> 1599 <= blen b /\ footer_ok b (bslice (blen b - 1536) 1536 b)) ->
+  accepted (Insp_All.run F_vmdk cs) = true.
+Proof.
+  intros b Hlen Hpre Hsec Hfull Hascii Hdesc Hfoot.
+  rewrite run_vmdk. unfold run_fmt. rewrite init_A.
+  assert (HA0 : InvA [] (stA [] [] (mkVx None VMDK_NOTFOUND))).
+  { exists [], (mkVx None VMDK_NOTFOUND). split; [reflexivity|]. split; [rewrite blen_nil; lia|]. split; [reflexivity|]. split; reflexivity. }
+  destruct (run_valid b Hlen Hpre Hsec cs [] _ eq_refl (or_introl HA0)) as [s' [He [HA|HB]]].
+  { destruct HA as [p [x [_ [Hs _]]]]. lia. }
+  rewrite He. cbn [accepted snd fst].
+  destruct HB as [hd [fo [xA [-> [Hl [Hp [Hok [Hfo [Hfi Hx]]]]]]]]].
+  destruct (prefix_fields hd b Hp Hl) as [F1 [F2 [F3 [F4 F5]]]].
+  assert (Hsize : dsize hd = dsize b) by (unfold dsize; rewrite F4; reflexivity).
+  rewrite Hsize in *. set (size := dsize b) in *. set (D := bslice 512 size b) in *.
+  assert (Hdc : dcomplete size b = true) by (apply dcomplete_iff; right; exact Hfull).
+  rewrite Hdc. rewrite (dparse_ascii xA D Hascii).
+  cbn [Insp_All.finish safety]. rewrite finish_stB.
+  assert (Hpass : safety_check vmdk_fmt (finB hd fo size b (mkVx (Some (text_of D)) (vmdk_type_of (text_of D)))) = Pass).
+  { apply safety_pass_iff.
+    assert (Hmatch : f_match vmdk_fmt (finB hd fo size b (mkVx (Some (text_of D)) (vmdk_type_of (text_of D)))) = Ok true).
+    { cbn [f_match vmdk_fmt]. unfold vmdk_match, finB. cbn [i_regs].
+      assert (Hm : prefixb VMDK_MAGIC (r_data (hreg hd)) = true).
+      { cbn [r_data hreg]. rewrite prefixb_btake. change (blen VMDK_MAGIC) with 4.
+        destruct Hok as [Hsig _]. unfold vmdk_sig, bslice in Hsig. rewrite bskip_0 in Hsig. rewrite Hsig. reflexivity. }
+      destruct fo as [[off fd]|]; cbn [rget rname_beq]; rewrite Hm; reflexivity. }
+    unfold fo_matches, wants_footer in Hfo. rewrite F5 in Hfo.
+    destruct fo as [[off fd]|].
+    - (* with footer *)
+      assert (Hgd : vmdk_gd b = gd_at_end) by lia.
+      destruct (Hfoot Hgd) as [H1599 Hfok].
+      destruct Hfi as [p0 [Hp64 [Hp0 [Hfd Hoff]]]].
+      assert (Hfd' : fd = bslice (blen b - 1536) 1536 b).
+      { rewrite Hfd. rewrite nlast_bskip by lia. rewrite blen_bskip, bskip_bskip.
+        replace (p0 + (blen b - p0 - 1536)) with (blen b - 1536) by lia.
+        unfold bslice. symmetry. apply btake_all. rewrite blen_bskip. lia. }
+      assert (Hflen : blen fd = 1536) by (rewrite Hfd', blen_bslice; lia).
+      split; [|split; [exact Hmatch|]].
+      + unfold Insp_Engine.complete, finB. cbn [i_regs forallb snd].
+        rewrite rcomplete_hreg, rcomplete_dreg. fold D. unfold dcomplete in Hdc. fold D in Hdc. rewrite Hdc.
+        unfold rcomplete, base_complete. cbn [set_fin freg r_end r_min r_len r_data r_fin]. rewrite flen_blen, Hflen.
+        replace (64 <=? blen hd) with true by lia. reflexivity.
+      + intros c Hc. cbn [i_checks finB In] in Hc. destruct Hc as [<-|[<-|[]]]; cbn [f_check vmdk_fmt vmdk_check].
+        * apply check_descriptor_iff. exact Hdesc.
+        * apply (check_footer_iff _ (hreg hd) (set_fin (freg off fd) true)); [reflexivity|reflexivity|exact Hl|exact Hflen|].
+          cbn [r_data hreg set_fin freg]. rewrite Hfd'. unfold footer_ok in *. rewrite F1, F2, F3, F4. exact Hfok.
+    - split; [|split; [exact Hmatch|]].
+      + unfold Insp_Engine.complete, finB. cbn [i_regs forallb snd].
+        rewrite rcomplete_hreg, rcomplete_dreg. fold D. unfold dcomplete in Hdc. fold D in Hdc. rewrite Hdc.
+        replace (64 <=? blen hd) with true by lia. reflexivity.
+      + intros c Hc. cbn [i_checks finB In] in Hc. destruct Hc as [<-|[]]; cbn [f_check vmdk_fmt vmdk_check].
+        apply check_descriptor_iff. exact Hdesc. }
+  rewrite Hpass. reflexivity.
+Qed.
+
+(* fewer than 64 bytes: refused, whatever the bytes *)
+Definition InvA0 (sofar : bytes) (s : ist vx) : Prop :=
+  exists p x, s = stA sofar p x /\ (blen p < 4 -> p = sofar).
+
+Lemma run_short cs : forall sofar s, blen (sofar ++ concat cs) < 64 -> InvA0 sofar s ->
+  exists s', eat_all vmdk_fmt s cs = (s', None) /\ InvA0 (sofar ++ concat cs) s'.
+Proof.
+  induction cs as [|c cs IH]; intros sofar s Hl Hi; cbn [eat_all concat] in *.
+  - rewrite app_nil_r. exists s. split; [reflexivity|exact Hi].
+  - destruct Hi as [p [x [-> Hp]]]. rewrite app_assoc in Hl.
+    assert (Hc : blen (sofar ++ c) < 64) by (rewrite blen_app in Hl; lia).
+    rewrite eat_AA by assumption. rewrite app_assoc. apply IH; [exact Hl|].
+    eexists. eexists. split; [reflexivity|]. destruct (4 <=? blen p) eqn:E; [lia|reflexivity].
+Qed.
+
+Theorem vmdk_short_refused cs : blen (concat cs) < 64 -> safety (fst (Insp_All.run F_vmdk cs)) = Refused.
+Proof.
+  intros Hl. rewrite run_vmdk. unfold run_fmt. rewrite init_A.
+  destruct (run_short cs [] (stA [] [] (mkVx None VMDK_NOTFOUND)) Hl) as [s' [He [p [x [-> _]]]]].
+  { exists [], (mkVx None VMDK_NOTFOUND). split; reflexivity. }
+  rewrite He. cbn [fst safety app]. apply safety_incomplete_refused.
+  unfold Insp_Engine.complete, Insp_Engine.finish, stA. cbn [i_regs map fst snd forallb hreg dreg0 r_end].
+  fold (hreg (concat cs)). rewrite rcomplete_hreg. replace (64 <=? blen (concat cs)) with false by lia. reflexivity.
 Qed.
